@@ -727,8 +727,8 @@ def standard_main(run, pid, theorems, manifest, targeted, oracle, args, n_random
             return 1
         return 0
     quick = run.tier == "quick"
-    n_random = n_random or (1200 if quick else 20000)
-    n_targeted = n_targeted or (800 if quick else 12000)
+    n_random = n_random or (1200 if quick else 10000)
+    n_targeted = n_targeted or (800 if quick else 6000)
     pl = vlib.proof_leg(pid, theorems)
     for pr in pl["problems"]:
         vlib.log("proof-leg problem:", pr["kind"], pr["detail"][:400])
